@@ -269,8 +269,9 @@ pub fn get_navigation_node_from_braille_position(mathml: Element, position: usiz
 
     N_PROBES.with(|n| {*n.borrow_mut() = 0});
     // dive into the child of the <math> element (should only be one)
-    let search_state = find_navigation_node(mathml, as_element(mathml.children()[0]), position)?;
-    set_preference("BrailleNavHighlight".to_string(), saved_highlight_style.to_string()).unwrap();
+    let search_state = find_navigation_node(mathml, as_element(mathml.children()[0]), position);
+    set_preference("BrailleNavHighlight".to_string(), saved_highlight_style.to_string()).unwrap();     // restore before reporting any error
+    let search_state = search_state?;
 
     // we know the attr value exists because it was found internally
     // FIX: what should be done if we never did the search?
